@@ -84,7 +84,7 @@ int main() {
 
 def build(pool=None, tag='core', shards=16, force=False):
     pool = pool if pool is not None else nopgen.core_pool()
-    srcs = [os.path.join(VERIF, 'harness', 'glue.h'), os.path.join(VERIF, 'harness', 'prim.cpp'), os.path.join(VERIF, 'harness', 'objs.cpp'), os.path.join(VERIF, 'tools', 'nopgen.py'),
+    srcs = [os.path.join(VERIF, 'harness', 'glue.h'), os.path.join(VERIF, 'harness', 'prim.cpp'), os.path.join(VERIF, 'harness', 'objs.cpp'), os.path.join(VERIF, 'tools', 'nopgen.py'), os.path.join(VERIF, 'tools', 'rpcgen.py'),
             os.path.abspath(__file__), os.path.join(VERIF, 'tools', 'common.py')]
     key = sha_files(srcs + tree_files(os.path.join(REPO, 'include')), extra=tag + '|'.join(nopgen.desc(t) for t in pool))
     out = os.path.join(BUILD, 'h-%s-%s' % (tag, key))
@@ -153,6 +153,25 @@ def build(pool=None, tag='core', shards=16, force=False):
         r = run([CXX] + CXXFLAGS + ['-I' + out, prim_src, '-o', os.path.join(out, 'prim')], timeout=1200)
         return prim_src, r
 
+    import rpcgen
+    ifs, sets = rpcgen.interfaces(pool)
+    with open(os.path.join(out, 'rpc.txt'), 'w') as f:
+        f.write(rpcgen.describe(ifs, sets))
+    for which in ('rpc', 'rpcp'):
+        with open(os.path.join(out, which + '.cpp'), 'w') as f:
+            f.write(rpcgen.emit(ifs, sets, which))
+
+    def cc_rpc(which):
+        src = os.path.join(out, which + '.cpp')
+        r = run([CXX] + CXXFLAGS + ['-I' + out, src, '-o', os.path.join(out, which)], timeout=1200)
+        if which == 'rpcp' and r.returncode != 0:
+            # handlers with passthrough arguments: a compile failure is reported by the C14 check, not here
+            with open(os.path.join(out, 'rpcp.err'), 'w') as f:
+                f.write(r.stderr[-8000:])
+            class Ok: returncode = 0; stderr = ''
+            return src, Ok()
+        return src, r
+
     def cc_objs(_):
         src = os.path.join(VERIF, 'harness', 'objs.cpp')
         r = run([CXX] + CXXFLAGS + [src, '-o', os.path.join(out, 'objs')], timeout=1200)
@@ -160,9 +179,13 @@ def build(pool=None, tag='core', shards=16, force=False):
     with cf.ThreadPoolExecutor(NCPU) as ex:
         fut = ex.submit(cc_prim, None)
         fut2 = ex.submit(cc_objs, None)
+        fut3 = ex.submit(cc_rpc, 'rpc')
+        fut4 = ex.submit(cc_rpc, 'rpcp')
         res = list(ex.map(cc, files))
         res.append(fut.result())
         res.append(fut2.result())
+        res.append(fut3.result())
+        res.append(fut4.result())
     bad = [(p, r) for p, r in res if r.returncode != 0]
     if bad:
         p, r = bad[0]
